@@ -69,7 +69,7 @@ def predicate(case, obs):
         elif kind == 'contains':
             if (o == 'true') != (pv(op[1]) in grp):
                 return 'contains(%s) answers %s but the permutation is %sin the generated group' % (core.sx_show(op[1]), o, '' if pv(op[1]) in grp else 'not ')
-        elif kind == 'addset':
+        elif kind in ('addset', 'add'):      # Group::add(p) = add_set({p})
             new = closure(n, gens + [pv(p) for p in op[1:]])
             if (o == 'true') != (len(new) > len(grp)):
                 return 'add_set reports %s but the group %s' % ('growth' if o == 'true' else 'no growth', 'grew' if len(new) > len(grp) else 'did not grow')
